@@ -487,6 +487,12 @@ fn mutations(t: &JT, j: &Jv, r: &mut Rng, out: &mut Vec<(String, Jv)>) {
                 let mut d3: Vec<char> = digits.chars().collect();
                 d3[p] = ' ';
                 out.push((kk("space-digit"), Jv::Str(format!("{pre}{}", d3.iter().collect::<String>()))));
+                // characters that number parsers (not hex decoders) accept: a sign in the first position of a byte
+                for (nm, ch) in [("plus-digit", '+'), ("minus-digit", '-')] {
+                    let mut d4: Vec<char> = digits.chars().collect();
+                    d4[p & !1] = ch;
+                    out.push((kk(nm), Jv::Str(format!("{pre}{}", d4.iter().collect::<String>()))));
+                }
                 out.push((kk("noprefix"), Jv::Str(digits.clone())));
                 out.push((kk("upper-digits"), Jv::Str(format!("{pre}{}", digits.to_uppercase()))));
                 out.push((kk("upper-prefix"), Jv::Str(format!("0X{digits}"))));
@@ -719,6 +725,8 @@ fn must_reject(kind: &str) -> bool {
         | "hex-fixed-baddigit" | "hex-bls-baddigit" | "hex-var-baddigit"
         | "hex-fixed-nonascii-digit" | "hex-bls-nonascii-digit" | "hex-var-nonascii-digit"
         | "hex-fixed-space-digit" | "hex-bls-space-digit" | "hex-var-space-digit"
+        | "hex-fixed-plus-digit" | "hex-bls-plus-digit" | "hex-var-plus-digit"
+        | "hex-fixed-minus-digit" | "hex-bls-minus-digit" | "hex-var-minus-digit"
         | "hex-fixed-odd-minus1digit" | "hex-bls-odd-minus1digit" | "hex-var-odd-minus1digit"
         | "hex-fixed-odd-plus1digit" | "hex-bls-odd-plus1digit" | "hex-var-odd-plus1digit"
         | "hex-bls-intlist-256"
